@@ -784,7 +784,7 @@ Proof.
   apply qle_bool_ext. rewrite Qred_correct. reflexivity.
 Qed.
 
-Lemma vun_isfinite_img : forall o, vun IsFinite (VFlt (of_img o)) = Some (VInt (b2z (isfin o))).
+Lemma vun_isfinite_img : forall o, vun UIsFinite (VFlt (of_img o)) = Some (VInt (b2z (isfin o))).
 Proof. destruct o; reflexivity. Qed.
 
 Lemma in_range_dec : forall a b q, In q (range_dec a b) -> b < q <= a.
@@ -1235,3 +1235,72 @@ Section FinalIR.
       rewrite H by lia. reflexivity.
   Qed.
 End FinalIR.
+
+(* ================================================================ the same, for any kernel that IS the canonical tree
+   (Props/C11.v instantiates these with the trees regenerated from the source, k = canonical by reflexivity) *)
+
+Lemma gen_step1 : forall k, k = cbca_step_1 ->
+  forall nr nc cv A, 0 <= nr -> 0 <= nc -> ashape A = [nr; nc] ->
+    (forall r c, 0 <= r < nr -> 0 <= c < nc -> adata A [r; c] = VFlt (of_cost (cv r c))) ->
+    exists S, run_kernel k [] [A] = Some [S] /\ ashape S = [nr; nc + 1] /\
+      forall r c, 0 <= r < nr -> 0 <= c < nc + 1 -> fval (adata S [r; c]) (step1 nc cv r c).
+Proof. intros k ->. exact ir_step1. Qed.
+
+Lemma gen_step2 : forall k, k = cbca_step_2 ->
+  forall nr nc ncR crossL crossR d s1 S1 CL CR RC RCR cols,
+    0 <= nr -> 0 <= nc -> ashape S1 = [nr; nc + 1] ->
+    (forall r c, 0 <= r < nr -> 0 <= c < nc + 1 -> fval (adata S1 [r; c]) (s1 r c)) ->
+    arms_arr CL nr nc crossL -> arms_arr CR nr ncR crossR ->
+    ints_arr RC cols (fun c => c) -> ints_arr RCR cols (corr d) -> NoDup cols ->
+    (forall c, In c cols -> 0 <= c < nc /\ 0 <= corr d c < ncR) ->
+    (forall r c, 0 <= r < nr -> In c cols ->
+       0 <= h_left crossL crossR d r c <= c /\ 0 <= h_right crossL crossR d r c <= nc - 1 - c) ->
+    exists S SM, run_kernel k [] [S1; CL; CR; RC; RCR] = Some [S; SM] /\
+      ashape S = [nr; nc] /\ ashape SM = [nr; nc] /\
+      forall r c, 0 <= r < nr -> 0 <= c < nc ->
+        (In c cols ->
+           fval (adata S [r; c]) (qsub (s1 r (c + h_right crossL crossR d r c))
+                                       (s1 r (wrap (nc + 1) (c - h_left crossL crossR d r c - 1)))) /\
+           fval (adata SM [r; c]) (inject_Z (h_right crossL crossR d r c + h_left crossL crossR d r c))) /\
+        (~ In c cols -> adata S [r; c] = VFlt (Fin 0) /\ adata SM [r; c] = VFlt (Fin 0)).
+Proof. intros k ->. exact ir_step2. Qed.
+
+Lemma gen_step3 : forall k, k = cbca_step_3 ->
+  forall nr nc s2 B, 1 <= nr -> 0 <= nc -> ashape B = [nr; nc] ->
+    (forall r c, 0 <= r < nr -> 0 <= c < nc -> fval (adata B [r; c]) (s2 r c)) ->
+    exists S, run_kernel k [] [B] = Some [S] /\ ashape S = [nr + 1; nc] /\
+      forall r c, 0 <= r < nr + 1 -> 0 <= c < nc -> fval (adata S [r; c]) (step3 nr s2 r c).
+Proof. intros k ->. exact ir_step3. Qed.
+
+Lemma gen_step4 : forall k, k = cbca_step_4 ->
+  forall nr nc ncR crossL crossR d s3 sm2 S3 SM2 CL CR RC RCR cols,
+    0 <= nr -> 0 <= nc -> ashape S3 = [nr + 1; nc] ->
+    (forall r c, 0 <= r < nr + 1 -> 0 <= c < nc -> fval (adata S3 [r; c]) (s3 r c)) ->
+    ashape SM2 = [nr; nc] ->
+    (forall r c, 0 <= r < nr -> 0 <= c < nc -> fval (adata SM2 [r; c]) (inject_Z (sm2 r c))) ->
+    arms_arr CL nr nc crossL -> arms_arr CR nr ncR crossR ->
+    ints_arr RC cols (fun c => c) -> ints_arr RCR cols (corr d) -> NoDup cols ->
+    (forall c, In c cols -> 0 <= c < nc /\ 0 <= corr d c < ncR) ->
+    (forall r c, 0 <= r < nr -> In c cols ->
+       0 <= v_top crossL crossR d r c <= r /\ 0 <= v_bot crossL crossR d r c <= nr - 1 - r) ->
+    exists S SM, run_kernel k [] [S3; SM2; CL; CR; RC; RCR] = Some [S; SM] /\
+      ashape S = [nr; nc] /\ ashape SM = [nr; nc] /\
+      forall r c, 0 <= r < nr -> 0 <= c < nc ->
+        (In c cols ->
+           fval (adata S [r; c]) (qsub (s3 (r + v_bot crossL crossR d r c) c)
+                                       (s3 (wrap (nr + 1) (r - v_top crossL crossR d r c - 1)) c)) /\
+           fval (adata SM [r; c])
+                (inject_Z (let top := v_top crossL crossR d r c in
+                           let bot := v_bot crossL crossR d r c in
+                           sm2 r c + (top + bot)
+                           + (if top =? 0 then 0 else zsum (map (fun k0 => sm2 k0 c) (zrange (r - top) top)))
+                           + (if bot =? 0 then 0 else zsum (map (fun k0 => sm2 k0 c) (zrange (r + 1) bot)))))) /\
+        (~ In c cols -> adata S [r; c] = VFlt (Fin 0) /\ adata SM [r; c] = adata SM2 [r; c]).
+Proof. intros k ->. exact ir_step4. Qed.
+
+Lemma gen_cross_support : forall k, k = CbcaIR.cross_support ->
+  forall nr nc len inten I IM, 0 <= nr -> 0 <= nc -> ashape IM = [nr; nc] ->
+    (forall r c, 0 <= r < nr -> 0 <= c < nc -> adata IM [r; c] = VFlt (of_img (I r c))) ->
+    exists C, run_kernel k [VInt len; VFlt (Fin inten)] [IM] = Some [C] /\
+      arms_arr C nr nc (Cbca.cross_support nr nc I len inten).
+Proof. intros k ->. exact ir_cross_support. Qed.
